@@ -21,7 +21,7 @@
     The text -> AST step is exercised end to end by the check, not modelled. *)
 From Coq Require Import Reals List Bool NArith Sorting.Sorted Permutation.
 From Cfr.theories Require Import Num RInst Tree GameWF Valid Strat Eval Cli
-     CliProofs CliNamesProofs CliGambitProofs CliExamples CliUtilityProofs CliFinalProofs.
+     CliProofs CliNamesProofs CliGambitProofs CliExamples CliUtilityProofs CliFinalProofs CliMoreProofs.
 Import ListNotations.
 Open Scope R_scope.
 
@@ -60,6 +60,25 @@ Theorem C15_gambit_utilities :
          Valid g1 (o_prof out) /\ o_util1 out = e /\ o_util2 out = c - e /\
          o_util1 out + o_util2 out = c).
 Proof. exact cli_gambit_utilities_final. Qed.
+
+(** ... and the printed regrets are the regrets of the printed profile on the game as
+    written (the unshifted game [g1]); the clip decision is the same on both *)
+Theorem C15_gambit_regrets :
+  forall (numname : N -> N) (root : @enode RNum) (c : R) (g : @game RNum) (sum : R),
+    (forall p, In p (own_pairs root) -> fst p + snd p = c) ->
+    gambit_load numname root = Loaded (g, sum) ->
+    exists (n1 n2 : list (N * N)) (g1 : @game RNum),
+      final_names numname true root = Some n1 /\ final_names numname false root = Some n2 /\
+      from_root (joined (outcomes_of root) n1 n2 0 root 0) = Ok g1 /\
+      sum = c / 2 /\ g = CliGambitProofs.game_map_payoffs (fun x => x - c / 2) g1 /\
+      forall clip prof, Valid g prof ->
+        let out := @cli_choose RNum g sum clip prof in
+        let i1 := @info RNum g1 (o_prof out) in
+        Valid g1 (o_prof out) /\
+        o_reg1 out = si_reg1 i1 /\ o_reg2 out = si_reg2 i1 /\ o_regret out = @si_regret RNum i1 /\
+        o_pruned out = o_pruned (@cli_choose RNum g1 0 clip prof) /\
+        o_prof out = o_prof (@cli_choose RNum g1 0 clip prof).
+Proof. exact cli_gambit_regrets. Qed.
 
 (** the constant-sum scan on such a file *)
 Theorem C15_gambit_constant :
@@ -116,6 +135,7 @@ Proof. exact ex_const_utilities. Qed.
 Print Assumptions C15_numbers_are_info_of_printed.
 Print Assumptions C15_total_regret_is_max.
 Print Assumptions C15_gambit_utilities.
+Print Assumptions C15_gambit_regrets.
 Print Assumptions C15_gambit_constant.
 Print Assumptions C15_printed_valid.
 Print Assumptions C15_printed_rows.
